@@ -284,6 +284,10 @@ def fallback_rule(T, crate, prop="C10"):
             # the key match lives in a closure returning Result<bool>: unknown key => Ok(false); parse() must skip on
             # everything but Ok(true) and must not error
             cf = tables.closure_fallback(t)
+            if cf is None:
+                r.inst(table="Serde<%s>" % x, form="closure", note="what parse() does with the closure's result could not be read: undecided")
+                r.fail(prop, "anchor-missing fallback of Serde<%s>" % x, "the key table is a closure handed to a function this reader does not follow", t.parent.file() if t.parent else None, t.parent.line() if t.parent else None)
+                continue
             wild_ok = (not w["reaches_join"]) and (not w["err_exit"])
             ok = cf is not None and wild_ok and cf["no_error_exit"] and cf["skip_on_every_non_true_path"] and cf["success_path_does_not_skip"]
             r.inst(table="Serde<%s>" % x, form="closure", unknown_key_returns_not_true=wild_ok, parse_outcomes=(cf or {}).get("outcomes_at_join(ok_true,skipped)"),
@@ -428,6 +432,8 @@ def value_forms(T, syn, prop="C10"):
             if t.form == "closure":
                 cf = tables.closure_fallback(t)
                 recovered = bool(cf and cf["no_error_exit"] and cf["skip_on_every_non_true_path"])
+                if cf is None:
+                    recovered = True       # undecided (reported once by C10.R5): the caller of the closure is not read
             elif arms[k].get("failure_stays_local"):
                 # the arm runs in a closure of its own whose failure is only asked about (`.is_ok()`); what follows an
                 # unsuccessful key is the concern of C10.R5 (it is skipped)
